@@ -1181,6 +1181,10 @@ func (rn *runner) genStreamScenario(r *vh.Rand) {
 		q = append(q, fmt.Sprintf("cs write %d %d", first, L-first))
 		drain(1 + r.Intn(5))
 	}
+	if r.Chance(35) && L > 0 { // more Initial-level data after the ClientHello (e.g. a second ClientHello after a HelloRetryRequest)
+		q = append(q, fmt.Sprintf("cs write 0 %d", 1+r.Intn(L)))
+		drain(1 + r.Intn(4))
+	}
 	rn.queue = append(rn.queue, q...)
 }
 
